@@ -1,13 +1,18 @@
-//! Message bodies carrying ledger tokens (drop-exactly-once accounting) for the net engines.
+//! Message bodies carrying ledger tokens (drop-exactly-once accounting) and the scripted body operations
+//! (typed access, wrong-type access, clone, cast) of the net engines.
 
 use crate::net::with_ctx;
 use des::prelude::*;
+use std::collections::VecDeque;
 
 #[derive(Default)]
 pub struct Ledger {
-    /// uid the token belongs to (u32::MAX for module / element tokens), is_clone
+    /// uid the token belongs to (u32::MAX for module / element / task tokens), is_clone
     pub created: Vec<(u32, bool)>,
     pub drops: Vec<u8>,
+    /// failed body checks: (rule, message)
+    pub errors: Vec<(String, String)>,
+    pub ops: std::collections::BTreeMap<&'static str, u64>,
 }
 
 #[derive(Default, Debug, Clone)]
@@ -18,11 +23,13 @@ pub struct LedgerReport {
     pub leaked: Vec<(usize, u32)>,
     /// tokens dropped more than once
     pub double: Vec<(usize, u32)>,
+    pub errors: Vec<(String, String)>,
+    pub ops: std::collections::BTreeMap<&'static str, u64>,
 }
 
 impl Ledger {
     pub fn report(&self) -> LedgerReport {
-        let mut r = LedgerReport { created: self.created.len(), ..Default::default() };
+        let mut r = LedgerReport { created: self.created.len(), errors: self.errors.clone(), ops: self.ops.clone(), ..Default::default() };
         for (i, (uid, is_clone)) in self.created.iter().enumerate() {
             if *is_clone {
                 r.clones += 1;
@@ -36,6 +43,21 @@ impl Ledger {
         r
     }
 }
+
+fn body_error(rule: &str, msg: String) {
+    with_ctx(|c| {
+        if c.ledger.errors.len() < 8 {
+            c.ledger.errors.push((rule.to_string(), msg));
+        }
+    });
+}
+fn op(name: &'static str) {
+    with_ctx(|c| *c.ledger.ops.entry(name).or_insert(0) += 1);
+}
+
+pub const TOKEN_MODULE: u32 = u32::MAX;
+pub const TOKEN_PE: u32 = u32::MAX - 1;
+pub const TOKEN_TASK: u32 = u32::MAX - 2;
 
 #[derive(Debug)]
 pub struct Token {
@@ -54,7 +76,13 @@ impl Token {
         Token { id, uid }
     }
     pub fn new_opt() -> Option<Token> {
-        Some(Token::new(u32::MAX, false))
+        Some(Token::new(TOKEN_MODULE, false))
+    }
+    pub fn pe() -> Option<Token> {
+        Some(Token::new(TOKEN_PE, false))
+    }
+    pub fn task() -> Token {
+        Token::new(TOKEN_TASK, false)
     }
 }
 
@@ -75,6 +103,12 @@ impl Drop for Token {
     }
 }
 
+pub fn check_of(uid: u32) -> u64 {
+    (u64::from(uid) ^ 0x5151_7e7e_a0a0_0f0f).wrapping_mul(0x9E37_79B9_7F4A_7C15)
+}
+
+// ---------------------------------------------------------------- body types
+
 #[derive(Debug, Clone)]
 pub struct TokBody {
     pub tok: Token,
@@ -82,43 +116,428 @@ pub struct TokBody {
     pub declared: usize,
     pub check: u64,
 }
-
 impl MessageBody for TokBody {
     fn byte_len(&self) -> usize {
         self.declared
     }
 }
-
-pub fn check_of(uid: u32) -> u64 {
-    (u64::from(uid) ^ 0x5151_7e7e_a0a0_0f0f).wrapping_mul(0x9E37_79B9_7F4A_7C15)
+impl TokBody {
+    fn new(uid: u32, declared: usize) -> Self {
+        TokBody { tok: Token::new(uid, false), uid, declared, check: check_of(uid) }
+    }
+    fn ok(&self, uid: u32) -> bool {
+        self.uid == uid && self.check == check_of(uid)
+    }
 }
 
-/// declared body length in bytes for a body selector
-pub fn declared_len(body: u8) -> usize {
-    match body % 6 {
+#[derive(Debug, Clone, MessageBody)]
+pub struct DStruct {
+    pub a: u32,
+    pub t: TokBody,
+    pub s: String,
+}
+
+#[derive(Debug, Clone, MessageBody)]
+pub enum DEnum {
+    Unit,
+    Tuple(u16, TokBody),
+    Named { x: u64, t: TokBody, extra: String },
+}
+
+#[derive(Debug, Clone, MessageBody)]
+pub struct DGen<T: MessageBody> {
+    pub v: T,
+    pub w: u8,
+}
+
+#[derive(Debug, Clone, MessageBody)]
+pub struct DNested {
+    pub inner: DGen<DStruct>,
+    pub e: DEnum,
+    pub o: Option<u32>,
+}
+
+#[derive(Debug, Clone, MessageBody)]
+pub struct Zst;
+
+#[derive(Debug, MessageBody)]
+pub struct NoClone {
+    pub t: TokBody,
+}
+
+/// layout compatible with u64 but a different type
+#[derive(Debug, Clone, MessageBody)]
+pub struct OneField(pub u64);
+
+pub const N_BODIES: u8 = 20;
+
+fn tok_len(uid: u32) -> usize {
+    [8usize, 100, 436, 1000][(uid as usize >> 3) % 4]
+}
+
+/// declared body length in bytes, computed independently of `Message::length`
+pub fn declared_len_uid(body: u8, uid: u32) -> usize {
+    match body % N_BODIES {
         0 => 0,
         1 => 8,
         2 => 100,
         3 => 436,
         4 => 1000,
-        _ => 4032,
+        5 => 4032,
+        6 => 8,                                                // u64
+        7 => format!("s{uid}-{}", "y".repeat(uid as usize % 17)).len(), // String
+        8 => if uid % 2 == 0 { tok_len(uid) } else { 0 },      // Option<TokBody>
+        9 => (0..(uid % 4) as usize).map(|k| tok_len(uid + k as u32)).sum(), // Vec<TokBody>
+        10 => tok_len(uid),                                    // Box<TokBody>
+        11 => 4 + tok_len(uid) + 3,                            // DStruct {a, t, s:"abc"}
+        12 => match uid % 3 {                                  // DEnum: active variant only
+            0 => 0,
+            1 => 2 + tok_len(uid),
+            _ => 8 + tok_len(uid) + 5,
+        },
+        13 => tok_len(uid) + 1,                                // DGen<TokBody>
+        14 => (4 + tok_len(uid) + 3 + 1) + (2 + tok_len(uid + 1)) + if uid % 2 == 0 { 4 } else { 0 }, // DNested
+        15 => 0,                                               // Zst
+        16 => tok_len(uid),                                    // NoClone
+        17 => if uid % 2 == 0 { tok_len(uid) } else { 2 },     // Result<TokBody, String>
+        18 => tok_len(uid) + tok_len(uid + 1),                 // [TokBody; 2]
+        _ => (0..(uid % 3) as usize).map(|k| tok_len(uid + k as u32)).sum(), // VecDeque<TokBody>
     }
+}
+
+/// kept for the simple engines (length depends on the selector only for selectors 0..=5)
+pub fn declared_len(body: u8) -> usize {
+    declared_len_uid(body % 6, 0)
 }
 
 pub fn make_message(uid: u32, body: u8) -> Message {
-    let msg = Message::default().kind(u16::from(body % 6));
-    if body % 6 == 0 {
-        msg
-    } else {
-        msg.with_content(TokBody { tok: Token::new(uid, false), uid, declared: declared_len(body), check: check_of(uid) })
+    let k = body % N_BODIES;
+    let mut msg = Message::default().kind(u16::from(k));
+    match k {
+        0 => {}
+        1..=5 => msg.set_content(TokBody::new(uid, declared_len_uid(k, uid))),
+        6 => msg.set_content(check_of(uid)),
+        7 => msg.set_content(format!("s{uid}-{}", "y".repeat(uid as usize % 17))),
+        8 => msg.set_content(if uid % 2 == 0 { Some(TokBody::new(uid, tok_len(uid))) } else { None }),
+        9 => msg.set_content((0..uid % 4).map(|k| TokBody::new(uid, tok_len(uid + k))).collect::<Vec<_>>()),
+        10 => msg.set_content(Box::new(TokBody::new(uid, tok_len(uid)))),
+        11 => msg.set_content(DStruct { a: uid, t: TokBody::new(uid, tok_len(uid)), s: "abc".into() }),
+        12 => msg.set_content(match uid % 3 {
+            0 => DEnum::Unit,
+            1 => DEnum::Tuple(7, TokBody::new(uid, tok_len(uid))),
+            _ => DEnum::Named { x: check_of(uid), t: TokBody::new(uid, tok_len(uid)), extra: "12345".into() },
+        }),
+        13 => msg.set_content(DGen { v: TokBody::new(uid, tok_len(uid)), w: 9 }),
+        14 => msg.set_content(DNested {
+            inner: DGen { v: DStruct { a: uid, t: TokBody::new(uid, tok_len(uid)), s: "xyz".into() }, w: 1 },
+            e: DEnum::Tuple(1, TokBody::new(uid, tok_len(uid + 1))),
+            o: if uid % 2 == 0 { Some(uid) } else { None },
+        }),
+        15 => msg.set_content(Zst),
+        16 => msg.set_content_non_clonable(NoClone { t: TokBody::new(uid, tok_len(uid)) }),
+        17 => msg.set_content::<Result<TokBody, String>>(if uid % 2 == 0 { Ok(TokBody::new(uid, tok_len(uid))) } else { Err("no".into()) }),
+        18 => msg.set_content([TokBody::new(uid, tok_len(uid)), TokBody::new(uid, tok_len(uid + 1))]),
+        _ => msg.set_content((0..uid % 3).map(|k| TokBody::new(uid, tok_len(uid + k))).collect::<VecDeque<_>>()),
+    }
+    msg
+}
+
+// ---------------------------------------------------------------- scripted operations
+
+fn wrong_type_access(uid: u32, k: u8, msg: &Message, which: u32) {
+    // any type other than the stored one must not be readable, in particular layout-compatible ones
+    macro_rules! must_fail {
+        ($t:ty, $name:expr) => {
+            if msg.try_content::<$t>().is_some() || msg.can_cast::<$t>() {
+                body_error("wrong-type-read", format!("message {uid:#x} (body kind {k}) could be read as {}", $name));
+            }
+        };
+    }
+    op("wrong_type_access");
+    match which % 6 {
+        0 => {
+            if k != 6 {
+                must_fail!(u64, "u64");
+            }
+            must_fail!(i64, "i64");
+        }
+        1 => {
+            must_fail!([u8; 8], "[u8; 8]");
+            must_fail!(OneField, "OneField(u64)");
+        }
+        2 => {
+            if !(1..=5).contains(&k) {
+                must_fail!(TokBody, "TokBody");
+            }
+            if k != 10 {
+                must_fail!(Box<TokBody>, "Box<TokBody>");
+            }
+        }
+        3 => {
+            if k != 8 {
+                must_fail!(Option<TokBody>, "Option<TokBody>");
+            }
+            if k != 11 {
+                must_fail!(DStruct, "DStruct");
+            }
+        }
+        4 => {
+            if k != 7 {
+                must_fail!(String, "String");
+            }
+            must_fail!(&'static str, "&str");
+            if k != 15 {
+                must_fail!(Zst, "Zst");
+            }
+            must_fail!((), "()");
+        }
+        _ => {
+            if k != 13 {
+                must_fail!(DGen<TokBody>, "DGen<TokBody>");
+            }
+            must_fail!(DGen<u64>, "DGen<u64>");
+            if k != 9 {
+                must_fail!(Vec<TokBody>, "Vec<TokBody>");
+            }
+        }
     }
 }
 
-/// what a receiving module does with a data message (engine-specific scripts extend this)
-pub fn on_receive(_m: usize, _uid: u32, msg: Message) {
+fn failed_cast(uid: u32, k: u8, msg: Message, which: u32) -> Message {
+    op("failed_cast");
+    macro_rules! try_wrong {
+        ($t:ty, $name:expr, $m:expr) => {
+            match $m.try_cast::<$t>() {
+                Ok(_) => {
+                    body_error("wrong-type-cast", format!("message {uid:#x} (body kind {k}) was cast to {}", $name));
+                    return Message::default();
+                }
+                Err(m) => m,
+            }
+        };
+    }
+    let len = msg.length();
+    let m = match which % 4 {
+        0 => {
+            let m = try_wrong!(i64, "i64", msg);
+            try_wrong!(OneField, "OneField(u64)", m)
+        }
+        1 => {
+            if k == 10 {
+                try_wrong!(TokBody, "TokBody", msg)
+            } else {
+                try_wrong!(Box<TokBody>, "Box<TokBody>", msg)
+            }
+        }
+        2 => {
+            if k == 11 {
+                try_wrong!(DGen<TokBody>, "DGen<TokBody>", msg)
+            } else {
+                try_wrong!(DStruct, "DStruct", msg)
+            }
+        }
+        _ => {
+            let m = try_wrong!([u8; 8], "[u8; 8]", msg);
+            try_wrong!(u128, "u128", m)
+        }
+    };
+    if m.length() != len {
+        body_error("failed-cast-changed-message", format!("message {uid:#x}: length {len} before a failed cast, {} after", m.length()));
+    }
+    m
+}
+
+/// reads the stored value with its real type and compares it with what was put in
+fn right_type_read(uid: u32, k: u8, msg: &Message) {
+    op("typed_read");
+    let bad = |what: &str| body_error("value-changed", format!("message {uid:#x} (body kind {k}): {what}"));
+    match k {
+        0 => {
+            if msg.try_content::<TokBody>().is_some() {
+                bad("an empty body yields a value");
+            }
+        }
+        1..=5 => match msg.try_content::<TokBody>() {
+            Some(t) if t.ok(uid) && msg.can_cast::<TokBody>() => {}
+            _ => bad("TokBody not readable or altered"),
+        },
+        6 => {
+            if msg.try_content::<u64>() != Some(&check_of(uid)) {
+                bad("u64 value differs");
+            }
+        }
+        7 => {
+            if msg.try_content::<String>().map(String::as_str) != Some(format!("s{uid}-{}", "y".repeat(uid as usize % 17)).as_str()) {
+                bad("String value differs");
+            }
+        }
+        8 => match msg.try_content::<Option<TokBody>>() {
+            Some(Some(t)) if uid % 2 == 0 && t.ok(uid) => {}
+            Some(None) if uid % 2 == 1 => {}
+            _ => bad("Option<TokBody> differs"),
+        },
+        9 => match msg.try_content::<Vec<TokBody>>() {
+            Some(v) if v.len() == (uid % 4) as usize && v.iter().all(|t| t.ok(uid)) => {}
+            _ => bad("Vec<TokBody> differs"),
+        },
+        10 => match msg.try_content::<Box<TokBody>>() {
+            Some(t) if t.ok(uid) => {}
+            _ => bad("Box<TokBody> differs"),
+        },
+        11 => match msg.try_content::<DStruct>() {
+            Some(d) if d.a == uid && d.t.ok(uid) && d.s == "abc" => {}
+            _ => bad("DStruct differs"),
+        },
+        12 => match (uid % 3, msg.try_content::<DEnum>()) {
+            (0, Some(DEnum::Unit)) => {}
+            (1, Some(DEnum::Tuple(7, t))) if t.ok(uid) => {}
+            (2, Some(DEnum::Named { x, t, extra })) if *x == check_of(uid) && t.ok(uid) && extra == "12345" => {}
+            _ => bad("DEnum differs"),
+        },
+        13 => match msg.try_content::<DGen<TokBody>>() {
+            Some(d) if d.v.ok(uid) && d.w == 9 => {}
+            _ => bad("DGen<TokBody> differs"),
+        },
+        14 => match msg.try_content::<DNested>() {
+            Some(d) if d.inner.v.a == uid && d.inner.v.t.ok(uid) && d.inner.w == 1 && d.o == if uid % 2 == 0 { Some(uid) } else { None } => {}
+            _ => bad("DNested differs"),
+        },
+        15 => {
+            if msg.try_content::<Zst>().is_none() {
+                bad("Zst not readable");
+            }
+        }
+        16 => match msg.try_content::<NoClone>() {
+            Some(n) if n.t.ok(uid) => {}
+            _ => bad("NoClone differs"),
+        },
+        17 => match msg.try_content::<Result<TokBody, String>>() {
+            Some(Ok(t)) if uid % 2 == 0 && t.ok(uid) => {}
+            Some(Err(e)) if uid % 2 == 1 && e == "no" => {}
+            _ => bad("Result differs"),
+        },
+        18 => match msg.try_content::<[TokBody; 2]>() {
+            Some(a) if a[0].ok(uid) && a[1].ok(uid) => {}
+            _ => bad("[TokBody; 2] differs"),
+        },
+        _ => match msg.try_content::<VecDeque<TokBody>>() {
+            Some(v) if v.len() == (uid % 3) as usize && v.iter().all(|t| t.ok(uid)) => {}
+            _ => bad("VecDeque<TokBody> differs"),
+        },
+    }
+}
+
+fn successful_cast(uid: u32, k: u8, msg: Message) {
+    op("successful_cast");
+    let bad = |what: &str| body_error("cast-value-changed", format!("message {uid:#x} (body kind {k}): {what}"));
+    macro_rules! cast_ok {
+        ($t:ty, $check:expr) => {
+            match msg.try_cast::<$t>() {
+                Ok((v, _hdr)) => {
+                    #[allow(clippy::redundant_closure_call)]
+                    if !($check)(&v) {
+                        bad("value cast out differs from the value put in");
+                    }
+                }
+                Err(_) => bad("cast to the stored type failed"),
+            }
+        };
+    }
+    match k {
+        0 => drop(msg),
+        1..=5 => cast_ok!(TokBody, |t: &TokBody| t.ok(uid)),
+        6 => cast_ok!(u64, |v: &u64| *v == check_of(uid)),
+        7 => cast_ok!(String, |s: &String| s.starts_with(&format!("s{uid}-"))),
+        8 => cast_ok!(Option<TokBody>, |o: &Option<TokBody>| o.as_ref().map_or(uid % 2 == 1, |t| t.ok(uid))),
+        9 => cast_ok!(Vec<TokBody>, |v: &Vec<TokBody>| v.len() == (uid % 4) as usize),
+        10 => cast_ok!(Box<TokBody>, |t: &Box<TokBody>| t.ok(uid)),
+        11 => cast_ok!(DStruct, |d: &DStruct| d.t.ok(uid)),
+        12 => cast_ok!(DEnum, |_d: &DEnum| true),
+        13 => cast_ok!(DGen<TokBody>, |d: &DGen<TokBody>| d.v.ok(uid)),
+        14 => cast_ok!(DNested, |d: &DNested| d.inner.v.t.ok(uid)),
+        15 => cast_ok!(Zst, |_z: &Zst| true),
+        // NoClone is not Send-bounded differently; all our types are Send
+        16 => cast_ok!(NoClone, |n: &NoClone| n.t.ok(uid)),
+        17 => cast_ok!(Result<TokBody, String>, |r: &Result<TokBody, String>| r.as_ref().map_or(uid % 2 == 1, |t| t.ok(uid))),
+        18 => cast_ok!([TokBody; 2], |a: &[TokBody; 2]| a[0].ok(uid)),
+        _ => cast_ok!(VecDeque<TokBody>, |v: &VecDeque<TokBody>| v.len() == (uid % 3) as usize),
+    }
+}
+
+/// Applies the receiver's scripted operations to a data message. `ops` is the module's op list, indexed by uid.
+pub fn apply_ops(uid: u32, msg: Message, ops: &[u8]) {
+    let k = msg.header().kind as u8 % N_BODIES;
+    let mut msg = msg;
+    // length as the generator computes it, independent of Message::length
+    let exp = 64 + declared_len_uid(k, uid);
+    if msg.header().kind < 0x0fff && u16::from(k) == msg.header().kind && msg.length() != exp {
+        body_error("length", format!("message {uid:#x} (body kind {k}) reports length {}, header 64 + declared body length = {exp}", msg.length()));
+    }
+    if ops.is_empty() {
+        drop(msg);
+        return;
+    }
+    let n = 1 + (uid as usize % 4);
+    for j in 0..n {
+        let o = ops[(uid as usize + j) % ops.len()];
+        match o % 7 {
+            0 => right_type_read(uid, k, &msg),
+            1 => wrong_type_access(uid, k, &msg, uid + j as u32),
+            2 => {
+                op("try_clone");
+                match msg.try_clone() {
+                    Some(c) => {
+                        if k == 16 {
+                            body_error("clone-non-clonable", format!("message {uid:#x}: a non-clonable body was cloned"));
+                        }
+                        right_type_read(uid, k, &c);
+                        if c.length() != msg.length() {
+                            body_error("clone-length", format!("message {uid:#x}: clone has length {} original {}", c.length(), msg.length()));
+                        }
+                        drop(c);
+                    }
+                    None => {
+                        if k != 16 {
+                            body_error("clone-failed", format!("message {uid:#x} (body kind {k}): try_clone of a clonable body returned None"));
+                        }
+                    }
+                }
+            }
+            3 => {
+                if k != 16 {
+                    op("clone");
+                    let c = msg.clone();
+                    right_type_read(uid, k, &c);
+                    drop(msg);
+                    msg = c; // keep the clone, drop the original
+                }
+            }
+            4 => msg = failed_cast(uid, k, msg, uid + j as u32),
+            5 => {
+                successful_cast(uid, k, msg);
+                return;
+            }
+            _ => {
+                drop(msg);
+                return;
+            }
+        }
+    }
+    right_type_read(uid, k, &msg);
     drop(msg);
 }
 
-pub fn on_consume(_m: usize, _uid: u32, msg: Message) {
-    drop(msg);
+/// what a receiving module does with a data message
+pub fn on_receive(m: usize, uid: u32, msg: Message) {
+    let ops: Vec<u8> = with_ctx(|c| c.prog.modules.get(m).map(|s| s.rx_ops.clone()).unwrap_or_default()).unwrap_or_default();
+    if msg.header().kind >= u16::from(N_BODIES) {
+        // self messages, element messages or messages whose kind an element rewrote: no typed access
+        drop(msg);
+        return;
+    }
+    apply_ops(uid, msg, &ops);
+}
+
+pub fn on_consume(m: usize, uid: u32, msg: Message) {
+    on_receive(m, uid, msg);
 }
